@@ -326,9 +326,12 @@ class ScalarFuncs:
 
     @_scalar_func_decorator
     def max(cur_max, next_val, count):
+        # non-skipping: a null met anywhere, also in the first position, stays
         if is_null(next_val):
-            return next_val, count
+            return next_val, count + 1
         elif count:
+            if is_null(cur_max):
+                return cur_max, count + 1
             if next_val > cur_max:
                 cur_max = next_val
             return cur_max, count + 1
@@ -348,9 +351,12 @@ class ScalarFuncs:
 
     @_scalar_func_decorator
     def min(cur_max, next_val, count):
+        # non-skipping: a null met anywhere, also in the first position, stays
         if is_null(next_val):
-            return next_val, count
+            return next_val, count + 1
         elif count:
+            if is_null(cur_max):
+                return cur_max, count + 1
             if next_val < cur_max:
                 cur_max = next_val
             return cur_max, count + 1
